@@ -59,8 +59,9 @@ TRUSTED_BASE = [
 ]
 ASSUMPTIONS = ["templates have typesGH 5-tuples on every node, no wildcard atoms", "hydrogen counts are non-negative",
                "hydrogen mode matches how the template is written (as in C03)",
-               "engine configuration of SynReactor: no max_results, pre_filter off, strict_cc_count on (off inside PartialMatcher); the embedding "
-               "cap is a parameter (embed_threshold: not given = 5000, or any k >= 0)"]
+               "engine configuration of SynReactor: no max_results (except partial=True + embed_threshold), strict_cc_count on (off inside "
+               "PartialMatcher); parameters of the model: the embedding cap (embed_threshold: not given = 5000, or any k >= 0), "
+               "embed_pre_filter, partial"]
 TESTED_NOT_PROVED = [
     "RDKit half: result serialisation/standardisation (graph_to_smi, Standardize.fit) maps observationally equal ITS graphs to equal "
     "strings — metamorphic oracle on the implementation: equal sets of strings across writings, strategies, repeated calls, histories "
@@ -80,7 +81,7 @@ TESTED_NOT_PROVED = [
 ]
 LEVEL_TEXT = ("Machine-checked proof (Coq) over an executable model of the whole graph-level rule-application pipeline (SynRule preparation, "
               "search strategies ALL/COMPONENT/BACKTRACK over a verified monomorphism enumerator, the embedding cap embed_threshold as a parameter, "
-              "the PartialMatcher engine of partial=True, pruning by rule automorphisms, gluing, _explicit_h). Proved for all inputs AND EVERY "
+              "the pre-filter guard embed_pre_filter, the PartialMatcher engine of partial=True, pruning by rule automorphisms, gluing, _explicit_h). Proved for all inputs AND EVERY "
               "EMBEDDING CAP: (1) every stage and the result list commute literally with any injective renumbering of substrate and template, "
               "for every strategy (also the raw and kept matches of the partial-matching engine); (2) for every strategy the SET of glued ITS "
               "graphs is invariant under arbitrary rewriting of both inputs (renumbering plus any re-ordering of atoms, bonds and bond "
@@ -88,10 +89,12 @@ LEVEL_TEXT = ("Machine-checked proof (Coq) over an executable model of the whole
               "matches related by a rule automorphism glue to the same ITS, pruning keeps one match of every class — from the template ITS to "
               "its_list in implicit-hydrogen mode and, for hydrogen-free templates, in the default configuration (where the _explicit_h stage "
               "is shown to be the identity); for the exhaustive strategy with no premise about the cap at all (a capped search answers with "
-              "everything or nothing, never a truncated list, and whether it is capped does not depend on the writing); (3) component-aware "
+              "everything or nothing, never a truncated list, and whether it is capped does not depend on the writing); the pre-filter guard "
+              "only empties results and its decision does not depend on the writing either; (3) component-aware "
               "matches and results are exhaustive matches / results when neither search is capped, BACKTRACK returns the COMPONENT result "
               "whenever that is non-empty. Refuted with witnesses (code kept, known findings): BACKTRACK = COMPONENT on the explicit-hydrogen "
-              "path; COMPONENT within EXHAUSTIVE when a non-default cap empties the exhaustive search only. Every premise about the two "
+              "path; COMPONENT within EXHAUSTIVE when a non-default cap empties the exhaustive search only; invariance under re-ordering for "
+              "partial=True + embed_threshold (a result limit keeps the first matches in enumeration order). Every premise about the two "
               "writings is a boolean that the run function evaluates on each compared writing of each case (well-formedness and cap "
               "premises, and 'the other writing is the base renumbered and re-ordered', with renumberings found on the graphs the "
               "implementation parsed). The model is tied to the Python code on every run by comparing, per writing and strategy, match counts "
@@ -190,7 +193,7 @@ def _relabel(g, ren):
 
 
 def _strategy_obs(rec, mode):
-    """[nraw, nkept, nauts, nglued, S(results), crashed]"""
+    """[nraw, nkept, nauts, nglued, S(results), crashed, S(raw matches as sets of pairs)]"""
     from synkit.Graph.Matcher.dedup_matches import graph_automorphisms
     from ..tok import S
     nraw = len(rec.raw)
@@ -208,7 +211,8 @@ def _strategy_obs(rec, mode):
             else:
                 res.append([K.its_obs(gb), []])
         k += len(out)
-    return [nraw, len(rec.mappings), nauts, len(res), S(res), 0 if rec.its_err is None else 1]
+    raw_set = S([S([[int(a), int(b)] for a, b in m.items()]) for m in rec.raw])
+    return [nraw, len(rec.mappings), nauts, len(res), S(res), 0 if rec.its_err is None else 1, raw_set]
 
 
 def _model_variants(case):
@@ -231,6 +235,8 @@ def impl(case):
         return ["SKIP"]
     if case.get("mode") in PARTIAL_MODES:
         return _impl_partial(case)
+    if (case.get("opts") or {}).get("embed_pre_filter"):
+        return _impl_prefilter(case)
     mode = case.get("mode", "E")
     thr = (case.get("opts") or {}).get("embed_threshold")
     out = []
@@ -288,6 +294,31 @@ def _impl_partial(case):
         left = first.rule.left.raw
         pat = h_to_implicit(left) if has_XH(left) else left
         out.append([1 if first.flag else 0, K.mol_obs(pat), per])
+    return out
+
+
+def _impl_prefilter(case):
+    """SynReactor(embed_pre_filter=True[, embed_threshold=k]): per compared writing [explicit-H flag, pattern, does the guard fire
+    (SubgraphSearchEngine._quick_pre_filter on the graphs the reactor searched), per strategy the usual observable]"""
+    from synkit.Graph.Hyrogen._misc import h_to_implicit, has_XH
+    from synkit.Graph.Matcher.subgraph_matcher import SubgraphSearchEngine
+    mode = case.get("mode", "E")
+    thr = (case.get("opts") or {}).get("embed_threshold")
+    eff = SubgraphSearchEngine.DEFAULT_THRESHOLD if thr is None else thr
+    out = []
+    keep = set(_model_variants(case))
+    for i, v in enumerate(case["variants"]):
+        per, first = [], None
+        for st in case["strategies"]:
+            rec = _run_memo(case, v, st)
+            first = first or rec
+            per.append(_strategy_obs(rec, mode))
+        if i not in keep:
+            continue
+        left = first.rule.left.raw
+        pat = h_to_implicit(left) if has_XH(left) else left
+        fires = bool(SubgraphSearchEngine._quick_pre_filter(first.host, pat, ["element", "charge"], eff))
+        out.append([1 if first.flag else 0, K.mol_obs(pat), 1 if fires else 0, 1, per])      # 1: the model's wfb premise holds
     return out
 
 
@@ -472,6 +503,10 @@ def coq_case(case):
     mode = case.get("mode", "E")
     thr = (case.get("opts") or {}).get("embed_threshold")
     cthr = "None" if thr is None else "(Some %s)" % K.cN(int(thr))
+    if (case.get("opts") or {}).get("embed_pre_filter"):
+        vs = K.cl(["(%s, %s)" % (_c_host(pre["vs"][i][0]), _c_tpl(pre["vs"][i][1])) for i in _model_variants(case)])
+        return "run_c05f %s %s %s %s %s %s" % (cthr, K.cb(case.get("invert", False)), K.cb(mode == "I"), K.cb(mode == "E"),
+                                              K.cl([K.cN(STRATS[s_]) for s_ in case["strategies"]]), vs)
     if mode in PARTIAL_MODES:
         vs = K.cl(["(%s, %s)" % (_c_host(pre["vs"][i][0]), _c_tpl(pre["vs"][i][1])) for i in _model_variants(case)])
         return "run_c05p %s %s %s %s %s" % (cthr, K.cb(case.get("invert", False)), K.cb(mode == "P"),
@@ -815,6 +850,11 @@ def _ok_obs(obs):
 
 
 def nontrivial(case, obs):
+    if (case.get("opts") or {}).get("embed_pre_filter"):
+        try:
+            return obs[0][4][0][0] >= 2 or obs[0][2] == 1
+        except Exception:
+            return False
     if case.get("mode") in PARTIAL_MODES:
         try:
             return obs[0][2][0][0] >= 2
@@ -836,6 +876,13 @@ def distribution(cases, obss):
             d["big_oracle_only"] += 1
         if c.get("mode") in PARTIAL_MODES:
             d["partial_mode"] = d.get("partial_mode", 0) + 1
+            continue
+        if (c.get("opts") or {}).get("embed_pre_filter"):
+            d["pre_filter"] = d.get("pre_filter", 0) + 1
+            try:
+                d["pre_filter_fires"] = d.get("pre_filter_fires", 0) + sum(1 for w in o if w[2] == 1)
+            except Exception:
+                pass
             continue
         if not _ok_obs(o):
             d["skipped"] += 1
@@ -942,7 +989,7 @@ def gen_cases(tier, rng):
     for c in cases:
         c["trim"] = 2500 if tier == "quick" else 10000
     cases = prepare_all(cases)
-    cases = cases + threshold_cases(cases, rng, 3 if tier == "quick" else 5) + partial_cap_cases(cases, rng)
+    cases = cases + threshold_cases(cases, rng, 3 if tier == "quick" else 5) + partial_cap_cases(cases, rng) + prefilter_cases(cases, rng, k_sub, k_tpl, cap)
     # longest first: the pool hands out the cases in order, so an expensive case at the end of the list would run alone while
     # every other worker is idle (on a loaded machine that one case decided the wall time)
     cases.sort(key=lambda c: -_impl_cost(c))
@@ -977,6 +1024,48 @@ def partial_cap_cases(cases, rng):
         q["opts"] = dict(embed_threshold=k)
         q["name"] = "%s:thr=%d" % (c["name"], k)
         out.append(q)
+    return out
+
+
+def prefilter_cases(cases, rng, k_sub, k_tpl, cap):
+    """SynReactor(embed_pre_filter=True): the documented guard of the first search (it may only EMPTY the result, and whether it
+    does must not depend on the writing).  On the designated rules alternately alone and together with a cap k (the guard fires
+    when the product of the per-atom candidate counts exceeds k * 10000, or an atom has no candidate); plus one case built so
+    that the guard fires although the search itself is within the cap (20 carbon atoms, 4 pattern atoms, cap 8 = #embeddings)."""
+    out = []
+    j = 0
+    for c in cases:
+        pre = c.get("pre") or {}
+        if c.get("kind") != "hand" or not c["tpl"].get("core") or c["sub"] != c.get("first_sub") or c.get("mode") in PARTIAL_MODES or c.get("opts"):
+            continue
+        if not any(("hand:" + k) in c["name"] + ":" for k in THR_RULES) or "cost" not in pre or pre.get("big"):
+            continue
+        n = int(pre["cost"]["raw"])
+        j += 1
+        q = {a: b for a, b in c.items() if a != "seq"}
+        q["opts"] = dict(embed_pre_filter=True)
+        q["n_all"] = n
+        if j % 2 == 0:
+            q["opts"]["embed_threshold"] = rng.choice(sorted({0, 1, max(n - 1, 0), n}))
+        q["name"] = "%s:prefilter%s" % (c["name"], "" if "embed_threshold" not in q["opts"] else ":thr=%d/%d" % (q["opts"]["embed_threshold"], n))
+        out.append(q)
+    built = [
+        # fires although the search is within the cap: 20^4 = 160000 candidate combinations > 8 * 10000, 8 embeddings <= 8
+        ("metathesis-bare", "[C:1]=[C:2].[C:3]=[C:4]>>[C:1]=[C:3].[C:2]=[C:4]", "C=CCCCCCCCCCCCCCCC.C=CC", dict(embed_pre_filter=True, embed_threshold=8), 8),
+        # a pattern atom without any candidate (no Br, no B in the substrate): fires
+        ("suzuki-bare", "[C:1][Br:2].[B:3][C:4]>>[C:1][C:4].[B:3][Br:2]", "CCO.CCN", dict(embed_pre_filter=True), 0),
+        # candidates by element but none by DEGREE (the inner diene atoms need two neighbours, ethene carbons have one): fires
+        ("diels-alder", "[CH2:1]=[CH:2][CH:3]=[CH2:4].[CH2:5]=[CH2:6]>>[CH2:1]1[CH:2]=[CH:3][CH2:4][CH2:5][CH2:6]1", "C=C.C=C.C=C", dict(embed_pre_filter=True), 0),
+    ]
+    for name, r, sub, opts, n in built:
+        p = dict(kind="hand", name="hand:%s:centre:%s:I:%s:prefilter-built%s" % (name, "bwd" if name == "suzuki-bare" else "fwd", sub,
+                                                                                 ":thr=%d/%d" % (opts["embed_threshold"], n) if "embed_threshold" in opts else ""),
+                 tpl=dict(rsmi=r, core=True), sub=sub, invert=(name == "suzuki-bare"), mode="I", first_sub=sub)
+        q = _mk_case(p, rng, k_sub, min(k_tpl, 1), cap)
+        q.pop("seq", None)
+        q["opts"] = dict(opts)
+        q["n_all"] = n
+        out.append(prepare(q))
     return out
 
 
